@@ -1,8 +1,277 @@
 //! Verification hook (compiled only with `--cfg quinn_rs_quinn_verif`).
+//!
+//! Component `tparams`: `TransportParameters::write` / `read`.
+//!
+//! Parameter set description `desc` (fixed layout; `lb(x)` = length-prefixed bytes, empty when absent):
+//! ```text
+//!   v0..v10                      the 11 integer parameters in `TransportParameterId::SUPPORTED` order
+//!                                (max_idle_timeout, max_udp_payload_size, initial_max_data, ..bidi_local, ..bidi_remote,
+//!                                 ..uni, initial_max_streams_bidi, ..uni, ack_delay_exponent, max_ack_delay,
+//!                                 active_connection_id_limit)
+//!   dam                          disable_active_migration
+//!   has, v                       max_datagram_frame_size
+//!   has, lb(cid)                 initial_src_cid
+//!   gqb                          grease_quic_bit
+//!   has, v                       min_ack_delay
+//!   has, lb(cid)                 original_dst_cid
+//!   has, lb(cid)                 retry_src_cid
+//!   has, t0..t15                 stateless_reset_token
+//!   has, has4, a0..a3, port4, has6, b0..b15, port6, lb(cid), t0..t15     preferred_address
+//! ```
+//! ops:
+//! ```text
+//!   [0, o0..o20, has_grease, grease_id, lb(payload), desc..]  `write` with `write_order = Some([o0..o20])` and the given
+//!                                                             reserved parameter  -> [0, bytes..]
+//!   [1, side, bytes..]        `read(side, bytes)` (side 0 = client, 1 = server: the reader's side)
+//!                             -> [0, desc..] | [1] IllegalValue | [2] Malformed
+//!   [2, side, o0..o20, has_grease, grease_id, lb(payload), desc..]   write then read -> as op 1
+//! ```
 #![allow(missing_docs, dead_code, unused_imports, unreachable_pub, clippy::all)]
 use super::{Ops, Outs};
+use crate::{
+    ConnectionId, Side, VarInt,
+    transport_parameters::{Error, PreferredAddress, ReservedTransportParameter, TransportParameters},
+};
+use std::net::{Ipv4Addr, Ipv6Addr, SocketAddrV4, SocketAddrV6};
 
-/// Interpret `ops` for component `comp`; `None` if `comp` is not served by this module.
-pub(crate) fn run(_comp: &str, _ops: &Ops) -> Option<Outs> {
-    None
+struct Rd<'a> {
+    v: &'a [i128],
+    p: usize,
+}
+
+impl<'a> Rd<'a> {
+    fn int(&mut self) -> Option<i128> {
+        let x = *self.v.get(self.p)?;
+        self.p += 1;
+        Some(x)
+    }
+    fn var(&mut self) -> Option<VarInt> {
+        Some(VarInt::from_u64(self.int()? as u64).unwrap())
+    }
+    fn bytes(&mut self, n: usize) -> Option<Vec<u8>> {
+        if self.v.len() - self.p < n {
+            return None;
+        }
+        let b = self.v[self.p..self.p + n].iter().map(|x| *x as u8).collect();
+        self.p += n;
+        Some(b)
+    }
+    fn lbytes(&mut self) -> Option<Vec<u8>> {
+        let n = self.int()?;
+        if n < 0 {
+            return None;
+        }
+        self.bytes(n as usize)
+    }
+    fn done(&self) -> bool {
+        self.p == self.v.len()
+    }
+}
+
+fn opt_cid(r: &mut Rd<'_>) -> Option<Option<ConnectionId>> {
+    let has = r.int()? != 0;
+    let b = r.lbytes()?;
+    if b.len() > crate::MAX_CID_SIZE {
+        return None;
+    }
+    Some(if has { Some(ConnectionId::new(&b)) } else { None })
+}
+
+fn params(r: &mut Rd<'_>) -> Option<TransportParameters> {
+    let mut p = TransportParameters::default();
+    p.max_idle_timeout = r.var()?;
+    p.max_udp_payload_size = r.var()?;
+    p.initial_max_data = r.var()?;
+    p.initial_max_stream_data_bidi_local = r.var()?;
+    p.initial_max_stream_data_bidi_remote = r.var()?;
+    p.initial_max_stream_data_uni = r.var()?;
+    p.initial_max_streams_bidi = r.var()?;
+    p.initial_max_streams_uni = r.var()?;
+    p.ack_delay_exponent = r.var()?;
+    p.max_ack_delay = r.var()?;
+    p.active_connection_id_limit = r.var()?;
+    p.disable_active_migration = r.int()? != 0;
+    let has = r.int()? != 0;
+    let v = r.var()?;
+    p.max_datagram_frame_size = if has { Some(v) } else { None };
+    p.initial_src_cid = opt_cid(r)?;
+    p.grease_quic_bit = r.int()? != 0;
+    let has = r.int()? != 0;
+    let v = r.var()?;
+    p.min_ack_delay = if has { Some(v) } else { None };
+    p.original_dst_cid = opt_cid(r)?;
+    p.retry_src_cid = opt_cid(r)?;
+    let has = r.int()? != 0;
+    let tok: [u8; 16] = r.bytes(16)?.try_into().ok()?;
+    p.stateless_reset_token = if has { Some(tok.into()) } else { None };
+    let has = r.int()? != 0;
+    let has4 = r.int()? != 0;
+    let a: [u8; 4] = r.bytes(4)?.try_into().ok()?;
+    let port4 = r.int()? as u16;
+    let has6 = r.int()? != 0;
+    let b: [u8; 16] = r.bytes(16)?.try_into().ok()?;
+    let port6 = r.int()? as u16;
+    let cid = r.lbytes()?;
+    if cid.len() > crate::MAX_CID_SIZE {
+        return None;
+    }
+    let tok: [u8; 16] = r.bytes(16)?.try_into().ok()?;
+    p.preferred_address = if has {
+        Some(PreferredAddress {
+            address_v4: if has4 { Some(SocketAddrV4::new(Ipv4Addr::from(a), port4)) } else { None },
+            address_v6: if has6 { Some(SocketAddrV6::new(Ipv6Addr::from(b), port6, 0, 0)) } else { None },
+            connection_id: ConnectionId::new(&cid),
+            stateless_reset_token: tok.into(),
+        })
+    } else {
+        None
+    };
+    Some(p)
+}
+
+fn push_lb(o: &mut Vec<i128>, b: &[u8]) {
+    o.push(b.len() as i128);
+    o.extend(b.iter().map(|x| *x as i128));
+}
+
+fn push_opt_cid(o: &mut Vec<i128>, c: &Option<ConnectionId>) {
+    match c {
+        Some(c) => {
+            o.push(1);
+            push_lb(o, c);
+        }
+        None => o.extend([0, 0]),
+    }
+}
+
+fn render(p: &TransportParameters) -> Vec<i128> {
+    let mut o: Vec<i128> = vec![0];
+    for v in [
+        p.max_idle_timeout,
+        p.max_udp_payload_size,
+        p.initial_max_data,
+        p.initial_max_stream_data_bidi_local,
+        p.initial_max_stream_data_bidi_remote,
+        p.initial_max_stream_data_uni,
+        p.initial_max_streams_bidi,
+        p.initial_max_streams_uni,
+        p.ack_delay_exponent,
+        p.max_ack_delay,
+        p.active_connection_id_limit,
+    ] {
+        o.push(v.into_inner() as i128);
+    }
+    o.push(p.disable_active_migration as i128);
+    match p.max_datagram_frame_size {
+        Some(v) => o.extend([1, v.into_inner() as i128]),
+        None => o.extend([0, 0]),
+    }
+    push_opt_cid(&mut o, &p.initial_src_cid);
+    o.push(p.grease_quic_bit as i128);
+    match p.min_ack_delay {
+        Some(v) => o.extend([1, v.into_inner() as i128]),
+        None => o.extend([0, 0]),
+    }
+    push_opt_cid(&mut o, &p.original_dst_cid);
+    push_opt_cid(&mut o, &p.retry_src_cid);
+    match &p.stateless_reset_token {
+        Some(t) => {
+            o.push(1);
+            o.extend(t.iter().map(|x| *x as i128));
+        }
+        None => o.extend([0i128; 17]),
+    }
+    match &p.preferred_address {
+        Some(pa) => {
+            o.push(1);
+            match pa.address_v4 {
+                Some(a) => {
+                    o.push(1);
+                    o.extend(a.ip().octets().iter().map(|x| *x as i128));
+                    o.push(a.port() as i128);
+                }
+                None => o.extend([0i128; 6]),
+            }
+            match pa.address_v6 {
+                Some(a) => {
+                    o.push(1);
+                    o.extend(a.ip().octets().iter().map(|x| *x as i128));
+                    o.push(a.port() as i128);
+                }
+                None => o.extend([0i128; 18]),
+            }
+            push_lb(&mut o, &pa.connection_id);
+            o.extend(pa.stateless_reset_token.iter().map(|x| *x as i128));
+        }
+        None => {
+            o.push(0);
+            o.extend([0i128; 6]);
+            o.extend([0i128; 18]);
+            o.push(0);
+            o.extend([0i128; 16]);
+        }
+    }
+    o
+}
+
+fn write(r: &mut Rd<'_>) -> Option<Vec<u8>> {
+    let mut order = [0u8; 21];
+    for i in 0..21 {
+        order[i] = r.int()? as u8;
+    }
+    let has_grease = r.int()? != 0;
+    let gid = r.var()?;
+    let gp = r.lbytes()?;
+    let mut p = params(r)?;
+    if !r.done() {
+        return None;
+    }
+    p.write_order = Some(order);
+    p.grease_transport_parameter = if has_grease {
+        Some(ReservedTransportParameter::verif_new(gid, &gp)?)
+    } else {
+        None
+    };
+    let mut buf = Vec::new();
+    p.write(&mut buf);
+    Some(buf)
+}
+
+fn read(side: i128, b: &[u8]) -> Vec<i128> {
+    let side = if side == 0 { Side::Client } else { Side::Server };
+    match TransportParameters::read(side, &mut &b[..]) {
+        Ok(p) => render(&p),
+        Err(Error::IllegalValue) => vec![1],
+        Err(Error::Malformed) => vec![2],
+    }
+}
+
+fn one(op: &[i128]) -> Option<Vec<i128>> {
+    let mut r = Rd { v: op, p: 1 };
+    match op[0] {
+        0 => {
+            let b = write(&mut r)?;
+            let mut o = vec![0];
+            o.extend(b.iter().map(|x| *x as i128));
+            Some(o)
+        }
+        1 => {
+            let side = r.int()?;
+            let b: Vec<u8> = op[2..].iter().map(|x| *x as u8).collect();
+            Some(read(side, &b))
+        }
+        2 => {
+            let side = r.int()?;
+            let b = write(&mut r)?;
+            Some(read(side, &b))
+        }
+        _ => None,
+    }
+}
+
+pub(crate) fn run(comp: &str, ops: &Ops) -> Option<Outs> {
+    match comp {
+        "tparams" => Some(ops.iter().map(|op| one(op).unwrap_or(vec![-1])).collect()),
+        _ => None,
+    }
 }
